@@ -513,3 +513,35 @@ _extend("C05", [("""   C05_bind_roundtrip: for every struct type""", """   C05_t
          ("C05_tree_bind_roundtrip", "C05Tree", "tree_bind_roundtrip", ""),
          ("C05_literals", "C05Tree", "eval_lit_expr", "every scalar is denoted by its literal expression"),
          ("C05_run_tree", "C05Tree", "run_prog_of_block", "the semantics of a written block is that block")])
+
+# ---- parser totality on all inputs (Proofs/ParserTotal.v), positions irrelevant to the tree (Proofs/LayoutTree.v) ----
+_extend("C06", [("""Validated by
+   the differential run only: fuel on REJECTED inputs (the model reports `oof`, never observed), and that
+   every compiled program passes the verifier""", """The parser terminates within its fuel and reaches no panic
+   site on EVERY input, accepted or rejected (C06_parser_total, C06_parse_total: measure = remaining tokens; the
+   two panic sites of parse.go -- an infix token without handler, an empty locals table in defVar -- are
+   unreachable).  Every compiled program passes the verifier (C06_parsed_verifies); also checked on the real
+   compiler's output""")],
+        "From BCL Require Import Proofs.ParserTotal.",
+        [("C06_parser_total", "ParserTotal", "parser_total", "every token list the lexer can produce: the parser neither runs out of fuel nor reaches a panic site"),
+         ("C06_parse_total", "ParserTotal", "parse_total", "the same for Parse / ParseFile on every chunked source"),
+         ("C06_interpret_total", "ParserTotal", "interpret_parser_total", "")])
+
+_extend("C17", [], "From BCL Require Import Proofs.ParserTotal.",
+        [("C17_parser_total", "ParserTotal", "parser_total", "rejection is never the model giving up: no fuel exhaustion, no panic site, on any input")])
+
+_extend("C20", [("""   (C20_paren_is_transparent) and two token lists with the same tree compile to the same program
+   (C20_same_tree_same_program).""", """   (C20_paren_is_transparent, C20_paren_atom: parentheses around a single-token operand, with fuel) and two
+   token lists with the same tree compile to the same program (C20_same_tree_same_program).  The grammar never
+   looks at token positions (C20_tree_ignores_positions), so two sources whose token sequences agree in type and
+   text -- which is all that layout and comments can leave different, by the byte-level theorems above --
+   are accepted together and compile to the same code and constants (C20_layout_irrelevant).  Not proved: the
+   general bridge "inserting layout at a token boundary leaves the (type, text) sequence unchanged" for whole
+   sources (the byte-level theorems are one-step statements; composing them needs position-shift invariance and
+   append-locality of the lexer, see DESIGN.md), and parentheses around arbitrary sub-expressions; both are
+   exercised by the re-rendering oracle on every generated program.""")],
+        "From BCL Require Import Model.Api Proofs.LayoutTree.",
+        [("C20_tree_ignores_positions", "LayoutTree", "ast_ignores_positions", ""),
+         ("C20_same_tokens_same_program", "LayoutTree", "same_tokens_same_program", ""),
+         ("C20_layout_irrelevant", "LayoutTree", "layout_irrelevant", ""),
+         ("C20_paren_atom", "LayoutTree", "paren_atom_closure", "")])
